@@ -150,6 +150,12 @@ func (c *pipelineConn) write(m []byte, qid uint16) (err error) {
 		}
 		_, err = c.c.Write(b)
 		pool.ReleaseBuf(b)
+		if err != nil {
+			// The connection is broken. Close it now, so that the pool stops
+			// handing it out (to the retries of this very exchange, too) before
+			// the read loop notices.
+			c.closeWithErr(fmt.Errorf("write err, %w", err))
+		}
 		return err
 	}
 
